@@ -485,11 +485,15 @@ def r4_fixpoint_loops(ctx, chk, rule="C06.4"):
                     construct="%s fixed-point exit" % f.short)
                 continue
             # `while True: ...; if current == previous: break`
-            if c == TRUE and L.has_break and not L.has_return:
-                bc = getattr(L, "break_cond", FALSE)
+            if c == TRUE and (L.has_break != L.has_return):
+                bc = getattr(L, "break_cond", FALSE) if L.has_break else getattr(L, "return_cond", FALSE)
                 ok = False
                 parts = bc[1] if bc[0] == "and" else (bc,)
                 eqs = [x for x in parts if x[0] == "cmp" and x[1] == "=="]
+                if L.has_return and not eqs:
+                    # `$returned` becomes true under exactly one test inside the body
+                    flat = [y for y in (bc[1] if bc[0] == "and" else (bc,))]
+                    eqs = [x for x in flat if x[0] == "cmp" and x[1] == "=="]
                 if eqs:
                     e_ = eqs[-1]
                     prev = [x for x in C02._sub(e_) if x[0] == "acc" and x[1] == L.id]
@@ -497,7 +501,7 @@ def r4_fixpoint_loops(ctx, chk, rule="C06.4"):
                     if prev and cur and (L.update.get(prev[0][2]) == cur[0] or any(x == cur[0] for x in C02._sub(L.update.get(prev[0][2], TRUE)))):
                         ok = True
                 if ok:
-                    chk.ok(rule, where, "fixed-point loop: `while True` left by `break` exactly when this round's result equals the previous round's")
+                    chk.ok(rule, where, "fixed-point loop: `while True` left by `%s` exactly when this round's result equals the previous round's" % ("break" if L.has_break else "return"))
                     continue
                 chk.undecided(rule, where, "`while True` loop: break condition `%s` not recognised as 'this round == previous round'" % show(bc)[:120])
                 continue
@@ -549,7 +553,7 @@ def run(ctx, chk):
     C07.r1_no_recursion(ctx, chk, "C06.pre:C07.1")
     # 'no solution' is raised exactly when R[0] == 0 only if the reachability domain is complete (C01 prerequisites)
     C07.r2_roots(ctx, chk, "C06.pre:C07.2")
-    C07.r4_result(ctx, chk, "C06.pre:C07.4")
+    C07.r4_result(ctx, chk, "C06.pre:C07.4", order_matters=False)
     C07.r35_worklist(ctx, chk, "C06.pre:C07.3", "C06.pre:C07.5")
     C07.r6_reversed_table(ctx, chk, "C06.pre:C07.6")        # a missing table entry is a stray KeyError out of solve()
     # structural necessary conditions for termination of the sweeps
